@@ -268,14 +268,14 @@ def symbolic_index_args(eng, func, b):
             v = b[a.name]
             vs = v if isinstance(v, (list, tuple)) else [v]
             for x in vs:
-                if isinstance(x, torch.Tensor) and eng.has(x):
-                    r.append(x)
+                if isinstance(x, torch.Tensor) and eng.has(x) and any(T.is_term(c) for c in eng.view(x).reshape(-1)):
+                    r.append(x)  # constant-valued index tensors are served by the real kernel on the shadow
     return r
 
 
 def plumb(eng, func, b, override=None):
     name = opname(func)
-    if symbolic_index_args(eng, func, b):
+    if not _FORCE_CONCRETE_INDEX and symbolic_index_args(eng, func, b):
         return symbolic_index(eng, func, b)
     if name in ("index_put", "index_put_", "_unsafe_index_put") and b.get("accumulate"):
         return index_put_accumulate(eng, func, b)
@@ -416,9 +416,14 @@ def index_tensor_symbolic(eng, func, b):
     indices = list(b["indices"])
     src = eng.sym(self_t)
     symdims = [d for d, ix in enumerate(indices) if isinstance(ix, torch.Tensor) and eng.has(ix)]
-    for d in symdims:
-        if indices[d].dtype == torch.bool:
-            raise UnsupportedOp("symbolic boolean mask index")
+    if any(indices[d].dtype == torch.bool for d in symdims):
+        if not all(indices[d].dtype == torch.bool for d in symdims):
+            raise UnsupportedOp("mixed symbolic boolean / integer index")
+        for d in symdims:
+            _decide_mask(eng, indices[d], "index-mask")
+        if eng.diverged:
+            raise PathAbort("witness inconsistent with the prescribed mask decisions")
+        return _plumb_concrete_index(eng, func, b)
     sizes = {d: self_t.shape[d] for d in symdims}
     for d in symdims:
         range_guard(eng, eng.sym(indices[d]).reshape(-1), sizes[d], True, "index")
@@ -466,8 +471,41 @@ def index_tensor_symbolic(eng, func, b):
     return out
 
 
+def _decide_mask(eng, t, site):
+    """a symbolic boolean mask used as an index has a data-dependent result shape: decide every cell (fork)"""
+    cells = eng.view(t)
+    for p in np.ndindex(*cells.shape):
+        c = cells[p]
+        if T.is_term(c):
+            eng.decide(c, site)
+
+
 def index_put_symbolic(eng, func, b):
-    raise UnsupportedOp("index_put with symbolic index")
+    self_t, indices, values = b["self"], list(b["indices"]), b["values"]
+    sym = [ix for ix in indices if isinstance(ix, torch.Tensor) and eng.has(ix) and any(T.is_term(c) for c in eng.view(ix).reshape(-1))]
+    if len(indices) == 1 and indices[0].dtype == torch.bool and tuple(indices[0].shape) == tuple(self_t.shape) and values.numel() == 1 \
+            and not b.get("accumulate"):
+        return u_ite(eng.sym(indices[0]), eng.sym(values).reshape(()), eng.sym(self_t))
+    if all(ix.dtype == torch.bool for ix in sym):
+        for ix in sym:
+            _decide_mask(eng, ix, "index_put-mask")
+        if eng.diverged:
+            raise PathAbort("witness inconsistent with the prescribed mask decisions")
+        return _plumb_concrete_index(eng, func, b)
+    raise UnsupportedOp("index_put with symbolic integer index")
+
+
+def _plumb_concrete_index(eng, func, b):
+    """after all symbolic mask cells have been decided the shadow's mask is the mask: serve by the real kernel"""
+    global _FORCE_CONCRETE_INDEX
+    _FORCE_CONCRETE_INDEX = True
+    try:
+        return plumb(eng, func, b)
+    finally:
+        _FORCE_CONCRETE_INDEX = False
+
+
+_FORCE_CONCRETE_INDEX = False
 
 
 def scatter_symbolic(eng, func, b):
